@@ -19,7 +19,7 @@ import numpy as np
 
 import sim  # noqa: F401
 from sim import build
-from sim.core import attempt, deep_tier, exc_tag
+from sim.core import attempt, bulk_tier, deep_tier, exc_tag
 from sim.oracle import STAT_FIELDS, arrays_equal, first_diff, missed_tuple, num_equal, snap, snap_diff
 
 PROPERTY = "C05"
@@ -51,7 +51,8 @@ ASSUMPTIONS = [
     "thread pool is not used (uncontrolled interleaving does not replay)",
 ]
 
-REFUSALS = ["other_ndim", "incompatible_bins", "shifted_by_one_bin", "int", "str", "none", "list", "ndarray", "shifted_grid"]
+REFUSALS = ["other_ndim", "incompatible_bins", "shifted_by_one_bin", "int", "str", "none", "list", "ndarray", "shifted_grid",
+            "near_width", "near_width"]
 
 
 # ----------------------------------------------------------------------------
@@ -64,8 +65,10 @@ def generate(rng, seed, part):
     mode = rng.choice(["fixed", "fixed", "adaptive"])
     wkind = rng.choice(build.WEIGHT_KINDS)
     far = rng.random() < 0.12  # narrow bins far from the origin: edge differences << |edge|
+    bulk = bulk_tier(rng)
     if mode == "fixed":
-        axes = [build.gen_axis(rng, max_bins=6 if ndim == 1 else (4 if ndim == 2 else 3)) for _ in range(ndim)]
+        mb = {1: 6, 2: 4, 3: 3}[ndim] if not bulk else {1: rng.choice([40, 150]), 2: 25, 3: 9}[ndim]
+        axes = [build.gen_axis(rng, min_bins=1 if not bulk else mb // 3, max_bins=mb, scaled=0.08) for _ in range(ndim)]
         if far:
             for k in range(ndim):
                 wf = rng.choice([1e-3, 0.01, 0.25])
@@ -84,6 +87,8 @@ def generate(rng, seed, part):
     deep = deep_tier(rng)
     if deep:
         n = rng.choice([50, 100, 200])
+    if bulk:
+        n = rng.choice([1000, 3000, 6000, 9000])
     entries = []
     if mode == "fixed":
         pools = [build.axis_pool(build.spec_bins(a)) for a in axes]
@@ -92,6 +97,8 @@ def generate(rng, seed, part):
             entries.append([vals[0] if ndim == 1 else vals, build.draw_weight(rng, wkind)])
     else:
         span = 12 if ndim == 1 else (6 if ndim == 2 else 3)
+        if bulk:
+            span = {1: 150, 2: 20, 3: 6}[ndim]
         for _ in range(n):
             vals = []
             for a in axes:
@@ -110,14 +117,19 @@ def generate(rng, seed, part):
     partials = []
     for p in range(P):
         idx = [i for i in range(n) if assign[i] == p]
-        partials.append({"idx": idx, "dtype": build.pick_dtype(rng, wkind),
-                         "path": rng.choice(["construct", "fill_n", "fill_n", "fill"]),
+        dt = build.pick_dtype(rng, wkind)
+        if bulk and dt in ("float16", "int16"):
+            dt = "float64" if dt == "float16" else "int32"  # thousands of entries (times a few doublings)
+        partials.append({"idx": idx, "dtype": dt,
+                         "path": rng.choice(["construct", "fill_n", "fill_n", "fill" if not bulk else "fill_n"]),
                          # in adaptive mode some partials are frozen (non-adaptive) on the common grid afterwards
                          "frozen": mode == "adaptive" and bool(idx) and rng.random() < 0.25})
     ops = []
     nodes = list(range(P))  # node ids; new results get fresh ids
     nxt = P
     steps = rng.randint(1, 8) if not deep else rng.randint(8, 24)
+    if bulk:
+        steps = rng.randint(1, 4)
     for _ in range(steps):
         r = rng.random()
         if r < 0.30 and len(nodes) >= 1:
@@ -318,7 +330,9 @@ def numeric_equal(cfg, a, b, scale, what, sig, ctx, msg):
     if not arrays_equal(a.errors2, b.errors2, exact=exact, scale=scale * 16):
         ctx.violation(what, f"{sig}/errors2", f"{msg}: errors2 {first_diff(a.errors2, b.errors2)}")
     ma, mb = missed_tuple(a), missed_tuple(b)
-    consecutive = all(bool(x.is_consecutive()) for x in a.binnings)
+    # "consecutive" as the statement means it: every bin starts exactly where the previous one ends (physt's own
+    # is_consecutive() has an absolute tolerance and calls gapped bins of magnitude 1e-7 consecutive)
+    consecutive = all(np.array_equal(np.asarray(x.bins)[1:, 0], np.asarray(x.bins)[:-1, 1]) for x in a.binnings)
     for j, (x, y) in enumerate(zip(ma, mb)):
         if a.ndim == 1 and not consecutive and (math.isnan(x) or math.isnan(y)):
             continue
@@ -690,6 +704,20 @@ def refusal_operand(kind, h, cfg):
             bs.append(StaticBinning(arr))
         other = Histogram1D(bs[0]) if h.ndim == 1 else type(h)(bs) if type(h).__name__ != "HistogramND" else HistogramND(bs)
         return other, "incompatible-bins" if kind == "incompatible_bins" else "shifted-by-one-bin"
+    if kind == "near_width":
+        # adaptive operand on a grid whose width differs by a relative 9e-6 (or 1e-9), far from the origin: there
+        # is no common grid, bin k of one is not bin k of the other
+        if cfg["mode"] != "adaptive" or any(b.bin_count == 0 for b in h.binnings) or not h.is_adaptive():
+            return NotImplemented, ""
+        eps = 9e-6 if (h.shape[0] % 2) else 1e-9
+        off = {1: 20000, 2: 1500}.get(h.ndim, 100)  # (a wrongly accepted union allocates off**ndim cells)
+        bs = [FixedWidthBinning(bin_width=b.bin_width * (1 + eps), bin_count=2,
+                                bin_times_min=int(round((b.first_edge - b._shift) / b.bin_width)) + b.bin_count + off,
+                                bin_shift=b._shift, adaptive=True) for b in h.binnings]
+        other = Histogram1D(bs[0]) if h.ndim == 1 else HistogramND(bs)
+        centre = [float(np.asarray(b.bins)[0].mean()) for b in bs]
+        other.fill(centre[0] if h.ndim == 1 else centre)
+        return other, "near-width"
     if kind == "shifted_grid":
         if cfg["mode"] != "adaptive" or any(b.bin_count == 0 for b in h.binnings):
             return NotImplemented, ""
